@@ -12,6 +12,7 @@ package server
 // concatenated until cursor 0 = the single unlimited reply; no id twice.
 
 import (
+	"encoding/json"
 	"fmt"
 	"strconv"
 	"strings"
@@ -59,7 +60,7 @@ func c11Items(v rv) (cursor int, ids []string, ok bool) {
 }
 
 func checkC11(job *Job, res *Result) {
-	res.Rule = "SEQ over inputs: 7 small datasets (n = 0..6) + an 18-object dataset with repeated string values + a 300-object and a 6x6-grid dataset x 5 commands x areas {world bounds, circle, triangle} x filters {none, MATCH a*, MATCH a?, WHERE f 1 2, WHEREIN f 2 1 2, MATCH+WHERE, literal MATCH (ids and repeated string values), literal MATCH+WHERE, two MATCH patterns, MATCH r[e]d} x {ASC, DESC} x LIMIT 1..n+1 (large: 1, 7, 36, 100, 254..258, n, n+1) x {IDS, OBJECTS}; distinct = distinct (dataset, query, limit) paginations"
+	res.Rule = "SEQ over inputs: 7 small datasets (n = 0..6) + an 18-object dataset with repeated string values + a 300-object and a 6x6-grid dataset x 5 commands x areas {world bounds, circle, triangle} x filters {none, MATCH a*, MATCH a?, WHERE f 1 2, WHEREIN f 2 1 2, MATCH+WHERE, literal MATCH (ids and repeated string values), literal MATCH+WHERE, two MATCH patterns, MATCH r[e]d} x {ASC, DESC} x LIMIT 1..n+1 (large: 1, 7, 36, 100, 254..258, n, n+1) x {IDS, OBJECTS} (+ COUNT pages in JSON mode, whose counts must add up); distinct = distinct (dataset, query, limit) paginations"
 	ids := []string{"a", "ab", "abc", "b", "ba", "c1"}
 	type dataset struct {
 		key    string
@@ -153,6 +154,8 @@ func checkC11(job *Job, res *Result) {
 		if job.Replay != nil {
 			mustJSON(job.Replay, &only)
 		}
+		cj := x.Dial(in.Addr)
+		cj.Do("OUTPUT", "json")
 		for _, d := range dsets {
 			for _, q := range queries {
 				if d.n >= 36 && q.Out == "OBJECTS" && job.Tier != "thorough" {
@@ -227,6 +230,43 @@ func checkC11(job *Job, res *Result) {
 							bad = fmt.Sprintf("%d items in %d pages, %d in the unlimited reply (skipped)", len(got), pages, len(want))
 						default:
 							bad = fmt.Sprintf("pages %v differ from the unlimited reply %v", vclip(fmt.Sprint(got), 200), vclip(fmt.Sprint(want), 200))
+						}
+					}
+					// COUNT output in JSON mode carries a cursor as well: following it,
+					// the counts of the pages add up to the unlimited count
+					if bad == "" && q.Out == "IDS" && d.n <= 36 {
+						qc := q
+						qc.Out = "COUNT"
+						total, cur, pg := 0, 0, 0
+						for {
+							r := cj.Do(qc.args(d.key, cur, lim)...)
+							var doc struct {
+								OK     bool `json:"ok"`
+								Count  int  `json:"count"`
+								Cursor int  `json:"cursor"`
+							}
+							pg++
+							if r.K != '$' || json.Unmarshal([]byte(r.S), &doc) != nil || !doc.OK {
+								bad = "COUNT page in JSON mode: " + vclip(r.String(), 120)
+								break
+							}
+							total += doc.Count
+							if doc.Cursor == 0 {
+								break
+							}
+							if doc.Cursor <= cur || pg > len(want)+5 {
+								bad = fmt.Sprintf("COUNT in JSON mode: cursor does not advance (%d -> %d)", cur, doc.Cursor)
+								break
+							}
+							cur = doc.Cursor
+						}
+						res.Transitions += pg
+						if bad == "" && total != len(want) {
+							bad = fmt.Sprintf("COUNT in JSON mode: the pages count %d items in %d pages and end with cursor 0, the unlimited query returns %d", total, pg, len(want))
+						}
+						if bad != "" {
+							res.Violate(fmt.Sprintf("C11/count-pagination:%s", strings.ToLower(q.Cmd)), fmt.Sprintf("%s  [query %v on a collection of %d objects]", bad, qc.args(d.key, 0, lim), d.n), map[string]any{"query": q.args(d.key, 0, lim)})
+							bad = ""
 						}
 					}
 					if bad != "" {
